@@ -69,7 +69,7 @@ func compPlan(tier string) plan {
 
 var plans = map[string]func(string) plan{
 	"C01": seqPlan, "C03": seqPlan, "C07": seqPlan, "C10": seqPlan, "C11": seqPlan, "C12": seqPlan,
-	"C13": seqPlan, "C19": seqPlan, "C20": concPlan, "C18": seqPlan,
+	"C13": seqPlan, "C19": seqPlan, "C20": seqPlan, "C18": seqPlan,
 	"C02": concPlan, "C04": concPlan, "C05": concPlan, "C06": concPlan, "C08": concPlan, "C09": concPlan, "C14": concPlan,
 	"C15": compPlan, "C16": compPlan, "C17": compPlan,
 }
@@ -437,6 +437,13 @@ func main() {
 					a.inconclusive = append(a.inconclusive, tag+": watchdog fired (no verdict), log "+dst)
 				case strings.Contains(txt, "panic:") || strings.Contains(txt, "fatal error:") || strings.Contains(txt, "AddressSanitizer"):
 					copyFile(co.logPath, dst)
+					cur := filepath.Join(outDir, fmt.Sprintf("%s-%s-%d.json.current", prop, v.Name, i))
+					if _, err := os.Stat(cur); err == nil {
+						// the pre-logged case descriptor is the replay; the log of the crash goes next to it
+						rp := filepath.Join(verifDir, "replays", fmt.Sprintf("%s-crash-%s-%d.json", prop, v.Name, i))
+						copyFile(cur, rp)
+						dst = rp
+					}
 					sig := "crash"
 					if idx := strings.Index(txt, "fatal error:"); idx >= 0 {
 						sig = "crash:" + firstLine(txt[idx:])
